@@ -20,7 +20,7 @@ ASSUMPTIONS = ['device reports a failed erase/write through bStatus != OK and bS
 REQUIRED_REACH = {'quick': ['clause2:error-reported-erase', 'clause2:error-reported-write', 'clause2:error-reported-setaddr', 'clause1:oversize-offered'],
                   'thorough': ['clause2:error-reported-erase', 'clause2:error-reported-write', 'clause2:error-reported-setaddr', 'clause1:oversize-offered']}
 EXPECTED_REACH = ['clause2:error-on-last-write', 'clause2:error-on-last-erase', 'clause2:setaddr-error-reported'] + ['clause2:status-%d' % s for s in range(1, 16)]
-CHUNK = 200
+CHUNK = 100
 
 parent_init = dfusim.parent_init
 parent_fini = dfusim.parent_fini
@@ -31,7 +31,7 @@ def plan(tier, seed):
     specs = []
     for v in 'B864':
         size = VARIANTS[v] * PAGE
-        for n in (size + 1, size + 2, size + 1023, size + 1024, size + 1025, 2 * size, 2 * size + 1):
+        for n in (size + 1, size + 2, size + 15, size + 16, size + 17, size + 1023, size + 1024, size + 1025, 2 * size, 2 * size + 1):
             for s in (0, 1):
                 for rep in range(3):
                     specs.append({'k': 'o', 'v': v, 'len': n, 'se': s, 'rep': rep})
@@ -68,10 +68,12 @@ def make_scenario(spec, seed, idx):
         else:
             v = r.choice('B864')
             size = VARIANTS[v] * PAGE
-            n = size + r.choice((1, 2, 3, 1023, 1024, r.randint(1, size), r.randint(1, 4 * size)))
+            n = size + r.choice((1, 2, 3, 8, 15, 16, 17, 1023, 1024, r.randint(1, 255), r.randint(1, size), r.randint(1, 4 * size)))
             se = r.choice((0, 0, r.randint(1, 15)))
-        fwk = r.choice(('random', 'random', 'tail', 'tail', 'ff', 'zeros'))
+        fwk = r.choice(('random', 'random', 'tail', 'tail', 'ff', 'zeros', 'suffix', 'suffix'))
         fw = {'len': n, 'kind': fwk, 'seed': r.randrange(1 << 30)}
+        if fwk == 'suffix':
+            fw.update(vid=r.choice((0x28e9, 0xFFFF)), pid=r.choice((0x0189, 0xFFFF)))
         if fwk == 'tail':
             # everything beyond the flash size (or beyond some earlier point) is one fill byte: padding-like
             fw.update(head=r.choice((VARIANTS[v] * PAGE, VARIANTS[v] * PAGE, VARIANTS[v] * PAGE - 1, r.randint(0, VARIANTS[v] * PAGE))), fill=r.choice((255, 255, 0)))
